@@ -509,8 +509,7 @@ def rule_decode(prog, res, floor=49):
                             okg = c2 == n - 1 and len(l2) == 1 and list(l2)[0][1] == -1
                 ok = k == 1 and rng_ok and okg
                 d = "pushes %s under the bit test" % show(v, ga.names)
-        import guardsem
-        okk, dd = guardsem.check_idvec(prog, name, n)
+        okk, dd = idvec_sem(prog, name, n)
         if okk is True:
             ok, d = True, dd
         elif okk is False:
@@ -556,10 +555,7 @@ def rule_decode(prog, res, floor=49):
                     okvec = sigv.op == "call" and sigv.args[0] == "msg::mask_to_id_vec_u32"
                 ok = okdiv and okvec
                 d = "pushes (sat_vec[%s], sig_vec[%s])" % (show(si, ga.names), show(gi, ga.names))
-    import guardsem
-    if id(prog) not in _CELLSEM:
-        _CELLSEM[id(prog)] = guardsem.check_cellvec(prog)
-    okk, dd, nparts = _CELLSEM[id(prog)]
+    okk, dd, nparts = cellvec_sem(prog)
     if okk is True:
         ok, d = True, dd
     elif okk is False:
@@ -567,6 +563,39 @@ def rule_decode(prog, res, floor=49):
     else:
         d = (d + " ; " if d else "") + (dd or "")
     res.ob("S-asc", "cell_mask_id_vec | cells are rebuilt row-major: cell i -> (sat_vec[i / |sig|], sig_vec[i % |sig|])", ok, d, g.loc, sample=d)
+
+
+_IDSEM = {}
+
+
+def idvec_sem(prog, name, n):
+    """(True | False | None, detail): if-conversion over the mask bits (guardsem); for a loop whose trip count depends on the mask
+    (bit scan with leading_zeros) induction on the cleared prefix (bitscansem)"""
+    key = (id(prog), name)
+    if key not in _IDSEM:
+        import guardsem
+        okk, dd = guardsem.check_idvec(prog, name, n)
+        if okk is None:
+            import bitscansem
+            ok2, d2 = bitscansem.check_idvec(prog, name, n)
+            if ok2 is not None:
+                okk, dd = ok2, d2
+            else:
+                dd = "%s ; %s" % (dd, d2)
+        _IDSEM[key] = (okk, dd)
+    return _IDSEM[key]
+
+
+def cellvec_sem(prog):
+    if id(prog) not in _CELLSEM:
+        import guardsem
+        r = guardsem.check_cellvec(prog)
+        if r[0] is None:
+            import bitscansem
+            r2 = bitscansem.check_cellvec(prog)
+            r = r2 if r2[0] is not None else (None, "%s ; %s" % (r[1], r2[1]), r[2])
+        _CELLSEM[id(prog)] = r
+    return _CELLSEM[id(prog)]
 
 
 def _idvec_semantics(prog, g, n):
